@@ -703,7 +703,9 @@ func genSet(r *hx.Rng, t *gtable) string {
 func genSchema2(r *hx.Rng, i int, maxCols int) *gtable {
 	// (names of which one is the beginning of another: a catalog lookup that matches by prefix, or without
 	// regard to length, confuses them)
-	pool := []string{"t1", "t10", "t2", "t1a", "t3", "t30", "t4", "t2b", "t5", "t50", "t6", "t7"}
+	// (and names that differ in letter case only: table names are case-sensitive, a lookup that folds case
+	// sends the statements of one table to the other - ninth seeded round)
+	pool := []string{"t1", "T1", "t10", "t2", "t1a", "t3", "t30", "t4", "t2b", "t5", "t50", "t6", "t7"}
 	t := &gtable{name: fmt.Sprintf("t%d", i)}
 	if i >= 1 && i <= len(pool) {
 		t.name = pool[i-1]
@@ -1320,6 +1322,14 @@ func runLimits(cfg *config, id int, r *hx.Rng) {
 	}
 	d.stmt(fmt.Sprintf("UPDATE t2 SET c0 = 'a', c3 = '' WHERE c2 = %d", int64(172)*1000000007))
 	d.stmt(fmt.Sprintf("UPDATE t2 SET c3 = '%s' WHERE c1 = TRUE", str(3)))
+	// column names are case-sensitive: a statement that spells a column in another letter case is refused and
+	// stores nothing - as SQL text and as direct statement values (ninth seeded round: such an UPDATE was
+	// accepted, logged, and its value stored nowhere)
+	d.stmt("UPDATE t1 SET C1 = 'other-case' WHERE c0 = 2147483647")
+	d.stmt("UPDATE t2 SET C2 = 5, c3 = 'x' WHERE c1 = TRUE")
+	d.stmt("UPDATE t2 SET c3 = 'y', C0 = 'z'")
+	d.stmt("INSERT INTO t1 (C0, c1) VALUES (5, 'x')")
+	d.insertv("t1", []string{"c0", "C1"}, [][]interface{}{{int64(6), "y"}})
 	d.selectEvery()
 	d.flush()
 	d.reopen()
@@ -1405,12 +1415,16 @@ func runDB(cfg *config) {
 		}
 		id++
 		runCacheFull(cfg, id, r.Fork())
+		id++
+		runOversizedSweep(cfg, id, r.Fork())
 	case "c03":
 		n := 6 * cfg.scale
 		for i := 0; i < n; i++ {
 			id++
 			runLogCrashes(cfg, id, r.Fork())
 		}
+		id++
+		runLogCrashesOpt(cfg, id, r.Fork(), true)
 	case "c16":
 		id++
 		runCacheBound(cfg, id, r.Fork())
@@ -1421,6 +1435,8 @@ func runDB(cfg *config) {
 		}
 		id++
 		runCacheSizesOf(cfg, id, r.Fork(), false, false, true)
+		id++
+		runCacheSizesKind(cfg, id, r.Fork(), false, false, false, true)
 	case "c04":
 		n := 3 * cfg.scale
 		for i := 0; i < n; i++ {
@@ -1583,6 +1599,48 @@ func runWrongName(cfg *config, id int, r *hx.Rng) {
 	d.roots()
 	cfg.st.Seen("wrong-name", true)
 	cfg.st.Add("statements", n+7)
+}
+
+// runOversizedSweep: a single-row INSERT refused for its SIZE into tables of every size 0..20 - whatever the
+// fill of the right-most leaf (empty, one below full, just split), the refusal leaves every row where it was,
+// also after a reload (ninth seeded round: a leaf split BEFORE the size check dropped the upper half of a leaf
+// that held exactly 8 cells).
+func runOversizedSweep(cfg *config, id int, r *hx.Rng) {
+	cfg.tr.Case(id)
+	d := &rdb{cfg: cfg, name: fmt.Sprintf("o%d", id)}
+	defer d.close()
+	d.createdb()
+	var ts []*gtable
+	for n := 0; n <= 20; n++ {
+		t := &gtable{name: fmt.Sprintf("s%d", n), cols: []gcol{{"a", "int"}, {"b", "varchar"}}}
+		d.stmt(createText(t))
+		ts = append(ts, t)
+		for i := 0; i < n; {
+			m := r.Range(1, 4)
+			var rows [][]interface{}
+			for k := 0; k < m && i < n; k++ {
+				rows = append(rows, []interface{}{int64(i), "r"})
+				i++
+			}
+			d.insertv(t.name, nil, rows)
+		}
+	}
+	if r.Bool() {
+		d.flush()
+	}
+	for _, t := range ts {
+		d.insertv(t.name, nil, [][]interface{}{{int64(777), strings.Repeat("w", r.Range(400, 460))}})
+	}
+	d.selectEvery()
+	d.reopen()
+	d.selectEvery()
+	for _, t := range ts {
+		d.insertv(t.name, nil, [][]interface{}{{int64(888), "after"}})
+	}
+	d.selectEvery()
+	d.dump()
+	cfg.st.Seen("oversized-sweep", true)
+	cfg.st.Add("statements", 80)
 }
 
 func runFailures(cfg *config, id int, r *hx.Rng) {
@@ -1864,7 +1922,12 @@ func runCacheBound(cfg *config, id int, r *hx.Rng) {
 
 // runLogCrashes (C03): a history in which chosen DML statements are crashed before each of their
 // log writes / syncs; every image is recovered, inspected and probed with further statements.
-func runLogCrashes(cfg *config, id int, r *hx.Rng) {
+func runLogCrashes(cfg *config, id int, r *hx.Rng) { runLogCrashesOpt(cfg, id, r, false) }
+
+// bulk: the crashed statements come after a burst of some 450 rows and the ONE flush behind it (more than a
+// hundred dirty pages at that flush): a flush that writes only part of them - the root, not its newest leaves -
+// leaves a file on which the log records of the burst are skipped (ninth seeded round).
+func runLogCrashesOpt(cfg *config, id int, r *hx.Rng, bulk bool) {
 	cfg.tr.Case(id)
 	d := &rdb{cfg: cfg, name: fmt.Sprintf("l%d", id)}
 	defer d.close()
@@ -1877,10 +1940,23 @@ func runLogCrashes(cfg *config, id int, r *hx.Rng) {
 	for i := 0; i < pre; i++ {
 		d.insertv(t.name, nil, [][]interface{}{genRowValues(r, t, false)})
 	}
-	if r.Bool() {
+	if bulk {
+		for total := 0; total < 450; {
+			var rows [][]interface{}
+			for k, m := 0, r.Range(60, 110); k < m; k++ {
+				rows = append(rows, genRowValues(r, t, false))
+			}
+			d.insertv(t.name, nil, rows)
+			total += len(rows)
+		}
+		d.flush()
+	} else if r.Bool() {
 		d.flush()
 	}
 	for s, n := 0, r.Range(2, 5); s < n && d.rs != nil; s++ {
+		if bulk && s >= 2 {
+			break
+		}
 		var q string
 		switch r.Intn(4) {
 		case 0:
@@ -2039,7 +2115,48 @@ func runCacheSizes(cfg *config, id int, r *hx.Rng, big bool, medium bool) {
 	runCacheSizesOf(cfg, id, r, big, medium, false)
 }
 
+// runBulkLite: two bursts of inserts, each followed by the one flush that has to write all of its pages -
+// about a hundred adjacent dirty pages per flush - and then reads; no reload, no crash, so that the same
+// operations can be replayed at capacities just above the burst's dirty set (128, 160, 256 pages), where the
+// second burst pushes the pages of the first out of the cache and the reads come from the file (ninth seeded
+// round: a flush that wrote runs of more than 64 adjacent pages to the wrong offsets).
+func runBulkLite(cfg *config, id int, r *hx.Rng) {
+	cfg.tr.Case(id)
+	d := &rdb{cfg: cfg, name: fmt.Sprintf("bulkl%d", id)}
+	defer d.close()
+	d.createdb()
+	a := &gtable{name: "t1", cols: []gcol{{"c0", "int"}}}
+	b := &gtable{name: "t2", cols: []gcol{{"c0", "int"}}}
+	d.stmt(createText(a))
+	d.stmt(createText(b))
+	d.flush()
+	for _, t := range []*gtable{a, b} {
+		total, rows := 0, r.Range(380, 440)
+		for total < rows {
+			n := r.Range(60, 120)
+			var rs [][]interface{}
+			for k := 0; k < n; k++ {
+				rs = append(rs, []interface{}{int64(total + k)})
+			}
+			d.stmt(insertText(t, rs, false))
+			total += n
+		}
+		d.flush()
+	}
+	d.selectEvery()
+	d.stmt("UPDATE t1 SET c0 = 7 WHERE c0 < 40")
+	d.flush()
+	d.selectEvery()
+	d.dump()
+	cfg.st.Seen("bulk-lite", true)
+	cfg.st.Add("statements", 12)
+}
+
 func runCacheSizesOf(cfg *config, id int, r *hx.Rng, big bool, medium bool, limits bool) {
+	runCacheSizesKind(cfg, id, r, big, medium, limits, false)
+}
+
+func runCacheSizesKind(cfg *config, id int, r *hx.Rng, big bool, medium bool, limits bool, bulk bool) {
 	// 1. the reference run: default capacity, flush after every statement
 	mark := cfg.tr.Mark()
 	caps := []int{6, 8, 16, 64}
@@ -2054,7 +2171,10 @@ func runCacheSizesOf(cfg *config, id int, r *hx.Rng, big bool, medium bool, limi
 	if big {
 		o = histOpts{stmts: 700, maxTables: 2, maxCols: 3, maxRows: 3, pFlush: 100, dumpEvery: 350, selectEvery: 70}
 	}
-	if limits {
+	if bulk {
+		runBulkLite(cfg, id, r)
+		caps = []int{128, 160, 256}
+	} else if limits {
 		runLimitsLite(cfg, id, r)
 		caps = []int{12, 16, 24}
 	} else {
